@@ -352,7 +352,9 @@ class Tr:
                     if base['kind'] == 'CXXThisExpr' and callee.get('name') in self.unit['state_calls']:
                         self.uses_this = True; self.mutates = True
                         return self.expr(c)
-            return self.ret(self.expr(s['inner'][0]) if s.get('inner') else None)
+            r = self.ret(self.expr(s['inner'][0]) if s.get('inner') else None)
+            # inside a search loop (a counted `for` that contains `return`): the loop body yields Some result / None = go on
+            return '(Some %s)' % r if getattr(self, 'search_depth', 0) > 0 else r
         if kind == 'DeclStmt':
             decls = s['inner']
 
@@ -596,7 +598,22 @@ class Tr:
         if not (i2['kind'] == 'UnaryOperator' and i2['opcode'] == '++'):
             raise Unsupported('for-inc')
         if self.has_return(body):
-            raise Unsupported('return/break inside for')
+            # search loop: `return` inside a counted for whose body assigns no outer variable (no break / continue / throw):
+            #   match fold_left (fun acc i => match acc with Some _ => acc | None => BODY end) (zrange lo hi) None with Some r => r | None => REST end
+            # BODY yields (Some result) at a `return` and None where control reaches the end of the body
+            def has_kind(n, kinds):
+                return n.get('kind') in kinds or any(has_kind(c, kinds) for c in n.get('inner', []) if isinstance(c, dict))
+            if has_kind(body, ('BreakStmt', 'ContinueStmt', 'CXXThrowExpr')) or self.isvoid:
+                raise Unsupported('break/continue/throw inside for')
+            if self.assigned(body, set()) - self.declared(body, set()) - {ivn}:
+                raise Unsupported('for with return assigns outer variables')
+            self.search_depth = getattr(self, 'search_depth', 0) + 1
+            try:
+                bodytxt = self.stmts([body], lambda: 'None')
+            finally:
+                self.search_depth -= 1
+            return ('(match fold_left (fun acc %s => match acc with Some _ => acc | None =>\n %s\n end) (zrange %s %s) None with Some r => r | None =>\n %s\n end)'
+                    % (ivn, bodytxt, lo, hi, cont()))
         asg = sorted(self.assigned(body, set()) - self.declared(body, set()) - {ivn})
         if '?' in asg:
             raise Unsupported('for-body assigns through an unknown object')
